@@ -57,12 +57,14 @@ type Slice struct {
 	base          Ptr // location of a Vec or BArr; nil obj = nil slice
 	off, len, cap *Term
 	max           int // concrete upper bound on cap (unrolling bound)
+	minrep        *Term // when set: the bytes are the minimal big-endian form of this 256-bit value
 }
 
 type Str struct {
 	arr      *Term
 	off, len *Term
 	max      int
+	minrep   *Term
 }
 
 type Iface struct {
